@@ -44,5 +44,5 @@ def jobs(tier):
     J+=init_walk_jobs(tier)
     J+=other('C14',tier,lambda j:True)[:1]     # managed-mode rate controller (C15-m1 class: candidate index stays inside the 15 blobs)
     return J
-CLAIM={'text':'Bounded model checking of the encoder set-up entry points on the real template tables: template selection yields an in-range table index for every double request and every admissible (channels, rate) (case split over all 17 templates x 2 modes in the thorough tier); the one-step initialisers clear the info structure on every failure; the rate-management control request accepts exactly settings satisfying the controller precondition and refuses changes after set-up is frozen; the managed-mode candidate index stays inside the 15 packet blobs.',
- 'note':'Trusted: real lib/modes tables as compiled. Not yet covered: the table walks of vorbis_encode_setup_init (x[is], books[...] double indirection) with symbolic base_setting, psy-idx (libm-nondeterministic index safety of _vp_psy_init etc.), other ctl requests, headerout guards, encoding of audio (float analysis path).'}
+CLAIM={'text':'Bounded model checking of the encoder set-up entry points on the real template tables: template selection yields an in-range table index for every double request and every admissible (channels, rate) (case split over all 17 templates x 2 modes in the thorough tier); the one-step initialisers clear the info structure on every failure; the rate-management control request accepts exactly settings satisfying the controller precondition and refuses changes after set-up is frozen; the managed-mode candidate index stays inside the 15 packet blobs; the whole table-driven construction of vorbis_encode_setup_init (every worker, book/floor/residue/mapping/psy slots) on the real tables stays inside the template arrays and the info slots for every setting interval of every template (thorough) with arbitrary channels/rate/ctl-settable fields, succeeds, and is released completely by vorbis_info_clear (init-walk); the fraction-dependent compander index stays inside its table for every setting (compand-idx).',
+ 'note':'Trusted: real lib/modes tables as compiled. init-walk runs the fraction of the setting as four concrete cases per interval (0, .5, largest float below 1, clamp) because a symbolic fraction makes every `int is=s` a symbolic index (no verdict); the interpolated VALUES are outside the claim. Not yet covered: psy-idx (libm-nondeterministic index safety of _vp_psy_init etc.), other ctl requests, headerout guards, encoding of audio (float analysis path).'}
